@@ -428,7 +428,7 @@ pub fn build(tier: &str) -> SimCheck {
         scenarios,
         oracle: Box::new(oracle),
         bound: if thorough { 3 } else { 2 },
-        limits: Limits { max_wall_s: if thorough { 2400.0 } else { 50.0 }, ..Default::default() },
+        limits: Limits { max_wall_s: if thorough { 2400.0 } else { 150.0 }, ..Default::default() },
         rule: "scenario = pool mode x pool_size x tuple of client programs (simple, multi-statement, failed, extended, pipelined, COPY in/out/fail transactions, replies with rows larger than the relay chunk; extended-protocol pairs also with the statement cache on), plus timeout scenarios (statement answered after statement_timeout with the client present / dropped / FIN / inside a transaction, idle-in-transaction timeout) next to three other clients; every schedule of client sends, backend reply deliveries and checkouts with at most `bound` deviations from run-to-completion order; distinct = distinct observable end-to-end histories".into(),
         assumptions: vec![
             "reference backend (mockpg) is the trusted model of a PostgreSQL session".into(),
